@@ -139,6 +139,8 @@ func genOp(table []string) *rapid.Generator[opSpec] {
 				for i := range op.Behave {
 					op.Behave[i] = rapid.SampledFrom([]int{0, 0, 0, 1, 1, 2, 2}).Draw(t, "behave")
 				}
+				// one registration in six hands in the Hook object of an earlier registration a second time
+				op.Twin = rapid.SampledFrom([]int{0, 0, 0, 0, 0, 1}).Draw(t, "twin") * rapid.IntRange(1, 4).Draw(t, "twinof")
 				if op.Behave[2] == 1 && rapid.IntRange(0, 2).Draw(t, "flips_deletion") == 0 {
 					op.Behave[2] = 3
 				}
